@@ -7,42 +7,124 @@ import Lumina.Spec.C23
 
 namespace Lumina.Proofs.RedbSchema
 open Lumina.Model.RedbSchema Lumina.Gen.C23
-open Lumina.Spec.C23 (legal reading underKey)
+open Lumina.Spec.C23 (legal reading underKey merge mergeFrom)
 
 /-! ### `BlockRanges::from_vec` accepts exactly the legal vectors -/
 
-theorem fromVecGo_some (p : Nat × Nat) (rs : Raw) :
-    fromVecGo (some p) rs =
-      ((match rs with
-        | [] => true
-        | r :: _ => decide (p.2 < r.1)) && legal rs) := by
-  induction rs generalizing p with
-  | nil => simp [fromVecGo, legal]
+set_option linter.unusedSimpArgs false
+
+/-- `rs` may follow a (merged) range ending at `p.2` -/
+def legalAfter (p : Nat × Nat) (rs : Raw) : Bool :=
+  match rs with
+  | [] => true
+  | r :: _ => decide (p.2 < r.1) && legal rs
+
+theorem legal_cons (r : Nat × Nat) (rest : Raw) :
+    legal (r :: rest) = (decide (1 ≤ r.1) && decide (r.1 ≤ r.2) && legalAfter r rest) := by
+  cases rest with
+  | nil => simp [legal, legalAfter]
+  | cons s rest' => simp [legal, legalAfter, Bool.and_assoc]
+
+theorem fromVecLoop_cons (p : Nat × Nat) (older rs : Raw) :
+    fromVecLoop (p :: older) rs =
+      if legalAfter p rs then some (older.reverse ++ mergeFrom p rs) else none := by
+  induction rs generalizing p older with
+  | nil => simp [fromVecLoop, legalAfter, mergeFrom]
   | cons r rest ih =>
-    cases rest with
-    | nil =>
-      simp only [fromVecGo, validRange, legal]
-      grind
-    | cons s rest' =>
-      have := ih r
-      simp only [fromVecGo, validRange, legal] at this ⊢
-      grind
+    simp only [fromVecLoop, validRange, legalAfter, legal_cons, mergeFrom]
+    by_cases h1 : r.1 > 0 <;> by_cases h2 : r.1 ≤ r.2 <;> by_cases h3 : r.1 ≤ p.2 <;>
+      by_cases h4 : p.2 + 1 = r.1 <;> simp [h1, h2, h3, h4, ih, legalAfter] <;> first | omega | grind
 
-theorem fromVecGo_none (rs : Raw) : fromVecGo none rs = legal rs := by
+theorem fromVecLoop_nil (rs : Raw) :
+    fromVecLoop [] rs = if legal rs then some (merge rs) else none := by
   cases rs with
-  | nil => simp [fromVecGo, legal]
+  | nil => simp [fromVecLoop, legal, merge]
   | cons r rest =>
-    cases rest with
-    | nil =>
-      simp only [fromVecGo, validRange, legal]
-      grind
-    | cons s rest' =>
-      have := fromVecGo_some r (s :: rest')
-      simp only [fromVecGo, validRange, legal] at this ⊢
-      grind
+    simp only [fromVecLoop, validRange, legal_cons, merge, fromVecLoop_cons]
+    by_cases h1 : r.1 > 0 <;> by_cases h2 : r.1 ≤ r.2 <;> simp [h1, h2] <;> first | omega | grind
 
-theorem fromVec_eq (rs : Raw) : fromVec rs = if legal rs then .ok rs else .error .storedData := by
-  simp [fromVec, fromVecGo_none]
+theorem fromVec_eq (rs : Raw) : fromVec rs = if legal rs then .ok (merge rs) else .error .storedData := by
+  simp only [fromVec, fromVecLoop_nil]
+  split <;> simp_all
+
+/-- legal and no two ranges touch -/
+def strictAfter (p : Nat × Nat) : Raw → Bool
+  | [] => true
+  | r :: rest => decide (p.2 + 1 < r.1) && decide (1 ≤ r.1) && decide (r.1 ≤ r.2) && strictAfter r rest
+
+def strict : Raw → Bool
+  | [] => true
+  | r :: rest => decide (1 ≤ r.1) && decide (r.1 ≤ r.2) && strictAfter r rest
+
+theorem mergeFrom_head (p : Nat × Nat) (rs : Raw) : ∃ q tl, mergeFrom p rs = q :: tl ∧ q.1 = p.1 := by
+  induction rs generalizing p with
+  | nil => exact ⟨p, [], rfl, rfl⟩
+  | cons r rest ih =>
+    simp only [mergeFrom]
+    split
+    · obtain ⟨q, tl, h, hq⟩ := ih (p.1, r.2)
+      exact ⟨q, tl, h, hq⟩
+    · exact ⟨p, _, rfl, rfl⟩
+
+/-- joining the touching ranges of a legal vector gives a strict one -/
+theorem mergeFrom_strict (q p : Nat × Nat) (rs : Raw) (hq : q.2 + 1 < p.1) (h1 : 1 ≤ p.1) (h2 : p.1 ≤ p.2)
+    (h : legalAfter p rs = true) : strictAfter q (mergeFrom p rs) = true := by
+  induction rs generalizing q p with
+  | nil => simp [mergeFrom, strictAfter, hq, h1, h2]
+  | cons r rest ih =>
+    simp only [legalAfter, legal_cons, Bool.and_eq_true, decide_eq_true_eq] at h
+    obtain ⟨hpr, ⟨hr1, hr2⟩, hrest⟩ := h
+    simp only [mergeFrom]
+    split
+    · exact ih q (p.1, r.2) hq h1 (by simp; omega) hrest
+    · rename_i hne
+      simp only [strictAfter, hq, h1, h2, decide_true, Bool.true_and]
+      exact ih p r (by omega) hr1 hr2 hrest
+
+theorem strictAfter_mergeFrom_id (p : Nat × Nat) (rs : Raw) (h : strictAfter p rs = true) :
+    mergeFrom p rs = p :: rs ∧ legalAfter p rs = true := by
+  induction rs generalizing p with
+  | nil => simp [mergeFrom, legalAfter]
+  | cons r rest ih =>
+    simp only [strictAfter, Bool.and_eq_true, decide_eq_true_eq] at h
+    obtain ⟨⟨⟨hg, h1⟩, h2⟩, hrest⟩ := h
+    obtain ⟨ihm, ihl⟩ := ih r hrest
+    constructor
+    · simp only [mergeFrom]
+      rw [if_neg (by omega), ihm]
+    · simp only [legalAfter, legal_cons, Bool.and_eq_true, decide_eq_true_eq]
+      exact ⟨by omega, ⟨h1, h2⟩, ihl⟩
+
+theorem mergeFrom_strict' (p : Nat × Nat) (rs : Raw) (h1 : 1 ≤ p.1) (h2 : p.1 ≤ p.2)
+    (h : legalAfter p rs = true) : strict (mergeFrom p rs) = true := by
+  induction rs generalizing p with
+  | nil => simp [mergeFrom, strict, strictAfter, h1, h2]
+  | cons r rest ih =>
+    simp only [legalAfter, legal_cons, Bool.and_eq_true, decide_eq_true_eq] at h
+    obtain ⟨hpr, ⟨hr1, hr2⟩, hrest⟩ := h
+    simp only [mergeFrom]
+    split
+    · exact ih (p.1, r.2) h1 (by simp; omega) hrest
+    · simp only [strict, h1, h2, decide_true, Bool.true_and]
+      exact mergeFrom_strict p r rest (by omega) hr1 hr2 hrest
+
+theorem strict_id (l : Raw) (h : strict l = true) : legal l = true ∧ merge l = l := by
+  cases l with
+  | nil => simp [legal, merge]
+  | cons q tl =>
+    simp only [strict, Bool.and_eq_true, decide_eq_true_eq] at h
+    obtain ⟨⟨h1, h2⟩, htl⟩ := h
+    obtain ⟨hid, hleg⟩ := strictAfter_mergeFrom_id q tl htl
+    exact ⟨by simp [legal_cons, h1, h2, hleg], by simp [merge, hid]⟩
+
+/-- the canonical form of a legal vector is legal and already canonical -/
+theorem merge_legal_idem (rs : Raw) (h : legal rs = true) : legal (merge rs) = true ∧ merge (merge rs) = merge rs := by
+  cases rs with
+  | nil => simp [merge, legal]
+  | cons r rest =>
+    simp only [legal_cons, Bool.and_eq_true, decide_eq_true_eq] at h
+    obtain ⟨⟨h1, h2⟩, hrest⟩ := h
+    exact strict_id _ (mergeFrom_strict' r rest h1 h2 hrest)
 
 /-- an `Except Err Raw` report as the spec's observation (`none` = error) -/
 def toOpt : Except Err Raw → Option Raw
@@ -125,14 +207,14 @@ def afterV1 (newId : Nat) (db : Db) : Db :=
   let rt := db.ranges.getD []
   createTables newId { db with
     heightRanges := none
-    ranges := some ((((rt.insert HEADER_RANGES_KEY raw).insert SAMPLED_RANGES_KEY (oldSampled db))).remove V2_SAMPLED_RANGES_KEY)
+    ranges := some ((((rt.insert HEADER_RANGES_KEY raw).insert SAMPLED_RANGES_KEY (merge (oldSampled db)))).remove V2_SAMPLED_RANGES_KEY)
     version := some 3 }
 
 /-- the database a successful migration from v2 commits -/
 def afterV2 (newId : Nat) (db : Db) : Db :=
   let rt := db.ranges.getD []
   createTables newId { db with
-    ranges := some ((rt.insert SAMPLED_RANGES_KEY (oldSampled db)).remove V2_SAMPLED_RANGES_KEY)
+    ranges := some ((rt.insert SAMPLED_RANGES_KEY (merge (oldSampled db))).remove V2_SAMPLED_RANGES_KEY)
     version := some 3 }
 
 theorem openTx_v1 (newId : Nat) (db : Db) (hv : db.version = some 1) :
@@ -170,7 +252,7 @@ theorem openTx_fresh (newId : Nat) (db : Db) (hv : db.version = none) :
   simp [openTx, hv, SCHEMA_VERSION, createTables]
 
 theorem heldSampled_v12 (db : Db) (hv : db.version = some 1 ∨ db.version = some 2) :
-    Lumina.Spec.C23.heldSampled db = if legalA db then some (oldSampled db) else none := by
+    Lumina.Spec.C23.heldSampled db = if legalA db then some (merge (oldSampled db)) else none := by
   have hk : V2_SAMPLED_RANGES_KEY = "KEY.ACCEPTED_SAMPING_RANGES" := by decide
   rcases hv with hv | hv <;>
     simp only [Lumina.Spec.C23.heldSampled, hv, underKey_eq, reading, legalA, oldSampled, hk]
